@@ -31,7 +31,7 @@ class TranslateError(Exception):
 # tokenizer
 
 TOK = re.compile(r'''
-    (?P<ws>\s+|//[^\n]*|/\*.*?\*/)
+    (?P<ws>\s+|//[^\n]*|/\*.*?\*/|'[A-Za-z_][A-Za-z0-9_]*(?!'))
   | (?P<str>"(?:[^"\\]|\\.)*"|'(?:[^'\\]|\\.)')
   | (?P<num>0x[0-9a-fA-F_]+(?:_?[ui](?:8|16|32|64|128|size))?|0b[01_]+(?:_?[ui](?:8|16|32|64|128|size))?|0o[0-7_]+|[0-9][0-9_]*(?:_?[ui](?:8|16|32|64|128|size))?)
   | (?P<id>[A-Za-z_][A-Za-z0-9_]*!?)
@@ -685,7 +685,7 @@ class Emitter:
         if t == 'Self':
             return self.self_ty
         if isinstance(t, str) and t in getattr(self, 'typarams', ()):
-            return 'slice'
+            return getattr(self, 'typarams_ty', None) or 'slice'
         if isinstance(t, tuple) and t and t[0] == 'assoc':
             if t[1] not in getattr(self, 'assoc', {}):
                 raise TranslateError('associated type %s is not declared uniquely in the file' % t[1])
@@ -1302,6 +1302,18 @@ class Emitter:
             return sr, 'uint'
         if tr in ('uint', 'slice', 'mutslice') and name in ('iter', 'copied') and not args:
             return sr, tr
+        if tr == 'uintlist' and name in ('copied', 'iter', 'into_iter') and not args:
+            return sr, tr
+        if tr == 'uintlist' and name == 'fold' and len(args) == 2 and args[1][0] == 'path' and args[1][1][0] == 'Self' \
+                and len(args[1][1]) == 2 and ('Uint::' + args[1][1][1]) in self.fns:
+            # `iter.fold(init, Self::method)`: a left fold with the (translated) binary method
+            si, _ = self.expr(args[0], env, 'uint')
+            sig = self.fns['Uint::' + args[1][1][1]]
+            pre = ['BITS', 'LIMBS']
+            if len(sig) > 3 and sig[3]:
+                self.uses_fuel = True
+                pre = ['fuel'] + pre
+            return '(List.foldl (fun acc_ x_ => %s %s acc_ x_) %s %s)' % (sig[0], ' '.join(pre), si, sr), 'uint'
         if tr in ('uint', 'slice', 'mutslice') and name in ('position', 'rposition') and len(args) == 1 and args[0][0] == 'closure' \
                 and len(args[0][1]) == 1:
             x = args[0][1][0]
@@ -2546,6 +2558,8 @@ class Emitter:
             return 'Except (%s) (%s)' % (self.lean_ty(et_) if et_ else 'Nat × Nat × Nat', self.lean_ty(t[1]))
         if t == 'uint' and getattr(self, 'uint_mode', False) == 'value':
             return 'Nat'
+        if t == 'uintlist':
+            return 'List (List Nat)'
         if t in ('uint', 'slice', 'mutslice') or (isinstance(t, tuple) and t[0] == 'array'):
             return 'List Nat'
         if isinstance(t, tuple) and t[0] == 'tuple':
@@ -2669,6 +2683,7 @@ def translate(items, namespace='Ruint.Gen', imports=('Ruint.Gen.Prelude',), fns=
                 em.enum_fields[m_.group(1)] = (m_.group(2), fts)      # (type parameter, field types per variant)
             # generic parameters `I: IntoIterator<Item = u64>` are digit sequences
             em.typarams = list(fn.get('typarams', []))
+            em.typarams_ty = it.get('typarams_ty')
             em.assoc = {}
             for an_ in set(re.findall(r'\btype\s+(\w+)\s*=', src)):
                 vals_ = set(re.findall(r'\btype\s+%s\s*=\s*([^;]+);' % an_, src))
@@ -3008,6 +3023,18 @@ def bit_op_items(repo):
     return out
 
 
+def fold_items(repo):
+    """iterator `Sum` / `Product` (by value and by reference): a left fold with the translated wrapping method"""
+    u = {'self_ty': 'uint', 'uint': True, 'group': 'folds', 'externs': UINT_EXTERNS, 'typarams_ty': 'uintlist'}
+    return [dict(u, file=repo + '/src/add.rs', fn='sum', lean='uint_sum', key='Uint::sum', after='Sum<Self> for Uint<BITS, LIMBS>'),
+            dict(u, file=repo + '/src/add.rs', fn='sum', lean='uint_sum_ref', key='Uint::sum_ref',
+                 after="Sum<&'a Self> for Uint<BITS, LIMBS>"),
+            dict(u, file=repo + '/src/mul.rs', fn='product', lean='uint_product', key='Uint::product',
+                 after='Product<Self> for Uint<BITS, LIMBS>'),
+            dict(u, file=repo + '/src/mul.rs', fn='product', lean='uint_product_ref', key='Uint::product_ref',
+                 after="Product<&'a Self> for Uint<BITS, LIMBS>")]
+
+
 def radix_items(repo):
     """src/base_convert.rs: digit-sequence conversions (limb mode; errors are (variant index, fields))"""
     f = repo + '/src/base_convert.rs'
@@ -3036,6 +3063,7 @@ GROUPS = [('core', 'Words', ('Ruint.Gen.Prelude',)),
           ('shiftops', 'WordsShiftOps', ('Ruint.Gen.WordsUint',)),
           ('binops', 'WordsBinOps', ('Ruint.Gen.WordsUintDiv',)),
           ('bitops', 'WordsBitOps', ('Ruint.Gen.WordsUint',)),
+          ('folds', 'WordsFolds', ('Ruint.Gen.WordsUint',)),
           ('value', 'WordsValue', ('Ruint.Gen.Prelude', 'Ruint.Model.Modular')),
           ('gcdv', 'WordsGcd', ('Ruint.Gen.Prelude', 'Ruint.Model.Gcd'))]
 
@@ -3060,6 +3088,7 @@ def translate_all(repo):
     items += shift_op_items(repo)
     items += bin_op_items(repo)
     items += bit_op_items(repo)
+    items += fold_items(repo)
     items += value_items(repo)
     items += gcd_value_items(repo)
     try:
